@@ -119,6 +119,23 @@ fn extract_fn_signatures_from_fixpoint<'a>(
                     .get_mut(state.get_current_function_tid())
                     .unwrap();
                 fn_sig.merge_with_fn_sig_of_state(state);
+                // The target expressions of jumps are only evaluated along outgoing edges of the graph.
+                // For indirect jumps, indirect calls and returns without a successor node
+                // the read access to the inputs of the target expression would be missed otherwise.
+                if let Node::BlkEnd(block, _) = graph[node] {
+                    let mut state = state.clone();
+                    for jmp in block.term.jmps.iter() {
+                        match &jmp.term {
+                            Jmp::BranchInd(target)
+                            | Jmp::Return(target)
+                            | Jmp::CallInd { target, .. } => {
+                                state.set_read_flag_for_input_ids_of_expression(target)
+                            }
+                            _ => (),
+                        }
+                    }
+                    fn_sig.merge_with_fn_sig_of_state(&state);
+                }
             }
             Some(NodeValue::CallFlowCombinator {
                 call_stub,
